@@ -181,6 +181,14 @@ C16_LastN ==
           /\ S(post[ev.r].heads) = MaximalOf(UU, S(want))
           /\ post[ev.r].len = k]_vars
 
+\* C15: what Iterator emitted is the requested causal range (declarative statement in LogOps)
+IterOpts == [lte |-> ev.iter.lte, lt |-> ev.iter.lt, gte |-> ev.iter.gte, gt |-> ev.iter.gt, amount |-> ev.iter.amount]
+IterRes  == [out |-> ev.iter.out, closed |-> ev.iter.closed, err |-> ev.iter.err, panic |-> ev.iter.panic \/ ev.iter.hung]
+C15_IterMeetsSpec ==
+  ph = "post" /\ ev.op = "I" /\ pre[ev.r].pure
+     /\ IterInScope(UU, S(pre[ev.r].ents), S(pre[ev.r].heads), IterOpts)
+  => IterMeetsSpec(UU, Fn, S(pre[ev.r].ents), S(pre[ev.r].heads), IterOpts, IterRes)
+
 -----------------------------------------------------------------------------
 (* Layer M - the observed transition is the specification's transition     *)
 M_Values ==
@@ -191,6 +199,13 @@ M_Heads ==
                                   /\ o.snapheads = o.rawheads
 M_Nidx ==
   \A r \in R : Obs[r].pure => S(Obs[r].nidx) = NextsOf(UU, S(Obs[r].ents))
+M_Iterator ==
+  ph = "post" /\ ev.op = "I" =>
+     LET a == IterAlgo(UU, Fn, S(pre[ev.r].ents), pre[ev.r].rawheads, IterOpts) IN
+     /\ ~IterRes.panic
+     /\ (a.err = "") = (IterRes.err = "")
+     /\ a.err = "" => IterRes.out = a.out /\ IterRes.closed = a.closed
+     /\ post = pre
 M_ClockId == \A r \in R : Obs[r].clkw = Obs[r].ident
 
 M_Append ==
